@@ -69,6 +69,20 @@ def r1_interval(ctx):
         and re.fullmatch(r"\['not le\((\w+), 0\)'\]", str(fi[0])) is not None and nz is not None and astx.u(nz) == "frozenset(self.interval.keys())"
     ctx.check(good, f, f.node, "zero supports are set aside (== 0), positive ones kept (> 0), non_zero_cands = kept keys", f"{fz} / {fi}",
               f"partition filters are {fz} / {fi}")
+    # the interval owns its data: both steps rebuild the mapping on every path (no early exit that
+    # leaves self.interval a live view of the caller's dictionary)
+    from vk.paths import PathCounter
+
+    def _stores_interval(n):
+        return isinstance(n, ast.Assign) and astx.u(n.targets[0]) == "self.interval" and isinstance(n.value, ast.Call) and \
+            any(isinstance(x, ast.DictComp) for x in ast.walk(n.value))
+    for meth, fact in (("_normalize", lambda a: None), ("_remove_zero_support_cands", lambda a: False if a in ("truthy(self.zero_cands)", "truthy(self.non_zero_cands)") else None)):
+        g = prog.find_func(f"PreferenceInterval.{meth}")
+        exits = [e for e in PathCounter(g.node, _stores_interval, fact).run() if e.kind in ("return", "fall-off")]
+        bad = [e for e in exits if e.lo < 1]
+        ctx.check(not bad and bool(exits), g, (bad[0].node if bad and bad[0].node is not None else g.node), f"{meth}: every normal path rebuilds self.interval from a fresh dictionary", "",
+                  f"{meth} has a path (line {getattr(bad[0].node, 'lineno', '?') if bad else '?'}) that returns without rebuilding self.interval: the interval then aliases the caller's dict "
+                  "(later mutation of that dict changes an already-built interval) or keeps unnormalised supports")
     init = prog.find_func("PreferenceInterval.__init__")
     order = [astx.call_name(c) for c in astx.calls_in(init.node) if astx.call_name(c) in ("_remove_zero_support_cands", "_normalize")]
     ctx.check(order == ["_remove_zero_support_cands", "_normalize"], init, init.node, "constructor: set zeros aside, then normalise", str(order), f"constructor order is {order}")
@@ -243,7 +257,7 @@ def r5_combined_intervals(ctx):
 
 
 RULES = [
-    ("C15.R1", r1_interval, 6, "PreferenceInterval: zero partition then normalisation by the sum"),
+    ("C15.R1", r1_interval, 8, "PreferenceInterval: zero partition then normalisation by the sum"),
     ("C15.R2", r2_combine, 3, "combine_preference_intervals: support * own proportion; zero sets united"),
     ("C15.R3", r3_name_bt, 3, "name-BT: _make_pow exponents m-i-1; table over all permutations divided by the total"),
     ("C15.R5", r5_combined_intervals, 7, "the three name-models build a bloc's interval by combine(intervals[bloc][b], cohesion[bloc][b]) over self.blocs (shared with C16.D6)"),
@@ -253,6 +267,8 @@ RULES = [
 PI = "src/votekit/pref_interval.py"
 BG = "src/votekit/ballot_generator.py"
 FAULTS = [
+    ("normalise skipped when already 1", [(PI, "        if summ == 0:\n            raise ZeroDivisionError(\"There are no candidates with non-zero support.\")\n", "        if summ == 0:\n            raise ZeroDivisionError(\"There are no candidates with non-zero support.\")\n        if summ == 1:\n            return\n")], "C15.R1"),
+    ("zero filter rounds", [(PI, "frozenset([c for c, s in self.interval.items() if s == 0])", "frozenset([c for c, s in self.interval.items() if round(s, 8) == 0])")], "C15.R1"),
     ("normalise by max", [(PI, "        summ = sum(self.interval.values())", "        summ = max(self.interval.values())")], "C15.R1"),
     ("normalise before removing zeros (swap order)", [(PI, "        self._remove_zero_support_cands()\n        self._normalize()", "        self._normalize()\n        self._remove_zero_support_cands()")], "C15.R1"),
     ("zero filter < epsilon", [(PI, "frozenset([c for c, s in self.interval.items() if s == 0])", "frozenset([c for c, s in self.interval.items() if s <= 0.01])")], "C15.R1"),
